@@ -11,7 +11,7 @@ use serde::{Deserialize, Serialize};
 use serde_json::json;
 use std::collections::HashMap;
 
-pub const RULE: &str = "operation sequences over Insert(key, depth, bound, score, move; age = current generation, as the search does) / Probe(key) / NewSearch(x1..300) / Reset / Resize(mb) on TranspositionTable<SearchTranspositionTableData> of 0, 1, 2, 3 MB (thorough: also 64 and 1024). Keys are constructed to collide: key = slot + mult * entries for a few chosen slots, with multipliers that make the colliding keys differ only in low bits, only above bit 32 or only above bit 48, plus a few random keys. Reference model: slot -> set of admissible entries with the true (unbounded) search counter: a probe may return data only for exactly the stored key and then exactly the model's entry; entries of earlier searches always give way; within one search an exact entry is displaced only by an exact or deeper one; where the statement is silent (non-exact old entry, same search, new not deeper and not exact) both outcomes are kept and narrowed by the next observation; Reset and size-changing Resize empty the table (every probe misses, occupied == 0); occupied equals the model's count and occupancy() = floor(1000*occupied/entries) +- 1; no panic for any size or number of searches. A 'fill_indicator' part checks occupancy() at every 1/64 fill level (and around 2^32/1000 occupied slots) of tables from 1 to 256 MB (thorough: to 1024 MB). Non-trivial = sequence with a same-slot different-key insert and a NewSearch between colliding inserts; distinct by op list.";
+pub const RULE: &str = "operation sequences over Insert(key, depth, bound, score, move; age = current generation, as the search does) / Probe(key) / NewSearch(x1..300) / Reset / Resize(mb) on TranspositionTable<SearchTranspositionTableData> of 0, 1, 2, 3 MB (thorough: also 64 and 1024). Keys are constructed to collide: key = slot + mult * entries for a few chosen slots, with multipliers that make the colliding keys differ only in low bits, only above bit 32 or only above bit 48, plus a few random keys. Reference model: slot -> set of admissible entries with the true (unbounded) search counter: a probe may return data only for exactly the stored key and then exactly the model's entry; entries of earlier searches always give way; within one search an exact entry is displaced only by an exact or deeper one; where the statement is silent (non-exact old entry, same search, new not deeper and not exact) both outcomes are kept and narrowed by the next observation; Reset and size-changing Resize empty the table (every probe misses, occupied == 0); occupied equals the model's count and occupancy() = floor(1000*occupied/entries) +- 1; no panic for any size or number of searches. A 'fill_indicator' part checks occupancy() at every 1/64 fill level (and around 2^32/1000 occupied slots) of tables from 1 to 256 MB (thorough: to 1024 MB). A 'big_table_edges' part runs the same model-based sequences (with many Resets) on tables of 128-500 MB whose sizes are not powers of two, with keys in the last and first slots and next to the 64 MB block boundaries. Non-trivial = sequence with a same-slot different-key insert and a NewSearch between colliding inserts; distinct by op list.";
 
 #[derive(Serialize, Deserialize, Clone, Debug, PartialEq)]
 pub enum Op {
@@ -392,6 +392,40 @@ pub fn run(run: &mut Run) -> &'static str {
         Ok(())
     });
     run.workers = old_workers;
+    // large tables of sizes that are not powers of two, with keys in the first and the last slots of
+    // the table (where block-wise clearing, chunked loops and index arithmetic go wrong first): the
+    // same model-based sequences, with Reset and Resize to other large sizes
+    {
+        const BIG: [u16; 12] = [128, 129, 130, 150, 193, 200, 250, 255, 257, 300, 384, 500];
+        let op = prop_oneof![
+            10 => (0u8..4, 0u8..8, prop_oneof![Just(0u8), Just(1), Just(5), any::<u8>()], 0u8..3, any::<i16>(), any::<u16>()).prop_map(|(slot, mult, depth, bound, score, mv)| Op::Insert { slot, mult, depth, bound, score, mv }),
+            8 => (0u8..4, 0u8..8).prop_map(|(slot, mult)| Op::Probe { slot, mult }),
+            2 => (1u16..3).prop_map(|times| Op::NewSearch { times }),
+            3 => Just(Op::Reset),
+            1 => proptest::sample::select(BIG.to_vec()).prop_map(|mb| Op::Resize { mb }),
+        ];
+        let strat = (prop_oneof![proptest::sample::select(BIG.to_vec()), 128u16..520], proptest::collection::vec((0u8..8, prop_oneof![3 => Just(0u32), 1 => 0u32..16]), 4), proptest::collection::vec(op, 4..40)).prop_map(|(initial_mb, edge, ops)| {
+            let e = entries_for(initial_mb);
+            // slot indices of the initial size: mostly the very last slots, also the first ones and the
+            // neighbours of the 64 MB block boundaries
+            let slots = edge
+                .into_iter()
+                .map(|(cat, j)| match cat {
+                    0..=4 => (e - 1 - j as u64) as u32,
+                    5 => j,
+                    _ => (((1 + j as u64 % 2) << 22) + (j as u64 % 3)).saturating_sub(1).min(e - 1) as u32,
+                })
+                .collect();
+            Case { initial_mb, slots, ops }
+        });
+        let old = run.workers;
+        run.workers = 4;
+        run.proptest_part("big_table_edges", RULE, strat, tier.pick(48, 1_500), |c: &Case, st: &mut Stats| {
+            st.class("table_of_128_to_500_mb");
+            run_case(c, st)
+        });
+        run.workers = old;
+    }
     if tier == Tier::Thorough {
         // the largest advertised size: a handful of sequences on a 1024 MB table
         let big = (proptest::collection::vec(any::<u32>(), 1..4), proptest::collection::vec(
